@@ -320,22 +320,26 @@ ElemAttribute::startElement(StylesheetExecutionContext& executionContext) const
                         const XalanDOMString* const     theResultNamespace =
                             executionContext.getResultNamespaceForPrefix(nsprefix);
 
-                        if (theResultNamespace != 0 &&
-                            *theNamespace != *theResultNamespace)
+                        // Use a prefix that's already bound to the namespace,
+                        // if there is one, so that another attribute with the
+                        // same expanded name is replaced, not duplicated.
+                        const XalanDOMString* const     theExistingPrefix =
+                            executionContext.getResultPrefixForNamespace(attrNameSpace);
+
+                        if ((theResultNamespace != 0 &&
+                             *theNamespace != *theResultNamespace) ||
+                            (theExistingPrefix != 0 &&
+                             theExistingPrefix->empty() == false &&
+                             *theExistingPrefix != nsprefix))
                         {
                             // Oops! There's a conflict between an existing
-                            // result namespace and the attribute's namespace.
+                            // result namespace and the attribute's namespace,
+                            // or the namespace has another prefix already.
                             // To be safe, because we are generating namespace
                             // declaration here, rather than somewhere that
                             // knows more about how that result namespace is
                             // used, let's change the prefix of the attribute.
                             nsprefix.clear();
-
-                            // Use a prefix that's already bound to the namespace,
-                            // if there is one, so that another attribute with the
-                            // same expanded name is replaced, not duplicated.
-                            const XalanDOMString* const     theExistingPrefix =
-                                executionContext.getResultPrefixForNamespace(attrNameSpace);
 
                             if (theExistingPrefix != 0 && theExistingPrefix->empty() == false)
                             {
@@ -640,22 +644,26 @@ ElemAttribute::execute(StylesheetExecutionContext&  executionContext) const
                         const XalanDOMString* const     theResultNamespace =
                             executionContext.getResultNamespaceForPrefix(nsprefix);
 
-                        if (theResultNamespace != 0 &&
-                            *theNamespace != *theResultNamespace)
+                        // Use a prefix that's already bound to the namespace,
+                        // if there is one, so that another attribute with the
+                        // same expanded name is replaced, not duplicated.
+                        const XalanDOMString* const     theExistingPrefix =
+                            executionContext.getResultPrefixForNamespace(attrNameSpace);
+
+                        if ((theResultNamespace != 0 &&
+                             *theNamespace != *theResultNamespace) ||
+                            (theExistingPrefix != 0 &&
+                             theExistingPrefix->empty() == false &&
+                             *theExistingPrefix != nsprefix))
                         {
                             // Oops! There's a conflict between an existing
-                            // result namespace and the attribute's namespace.
+                            // result namespace and the attribute's namespace,
+                            // or the namespace has another prefix already.
                             // To be safe, because we are generating namespace
                             // declaration here, rather than somewhere that
                             // knows more about how that result namespace is
                             // used, let's change the prefix of the attribute.
                             nsprefix.clear();
-
-                            // Use a prefix that's already bound to the namespace,
-                            // if there is one, so that another attribute with the
-                            // same expanded name is replaced, not duplicated.
-                            const XalanDOMString* const     theExistingPrefix =
-                                executionContext.getResultPrefixForNamespace(attrNameSpace);
 
                             if (theExistingPrefix != 0 && theExistingPrefix->empty() == false)
                             {
